@@ -78,6 +78,8 @@ def check_hist(ctx, obs):
         rep0 = {"crystal": h["crystal"], "crystal_theta": fl(h["ct"]), "crystal_phi": fl(h["cp"]),
                 "constructor": {k: (fl(v) if isinstance(v, str) and v.startswith("0x") else v) for k, v in init.items()}}
         hist_ops = []
+        replay_ops = []
+        rep0["replay"] = {"kind": "hist", "crystal": h["crystal"], "ct": h["ct"], "cp": h["cp"], "init": init, "ops": replay_ops}
         cur = h["init_state"]
         req_phi, req_theta = frac_of_hex(init["phi"]), frac_of_hex(init["theta"])
         ctx.seen(("hist", h["id"], "new", init["phi"], init["theta"]))
@@ -97,9 +99,10 @@ def check_hist(ctx, obs):
             op = st["op"]
             args = [fl(a) for a in st["args"]]
             hist_ops.append({"op": op, "args": args})
+            replay_ops.append({"op": op, "args": list(st["args"])})
             ctx.count(f"op:{op}")
             ctx.seen(("hist", h["id"], len(hist_ops), op, tuple(st["args"])))
-            rep = dict(rep0, history=list(hist_ops))
+            rep = dict(rep0, history=list(hist_ops), replay=dict(rep0["replay"], ops=list(replay_ops)))
             if "panic" in st:
                 ctx.violation("S5", f"{op}({args}) panicked: {st['panic'][:160]}", {"kind": "setter_panic", "op": op}, rep)
                 break
@@ -170,27 +173,46 @@ def check_snell(ctx, obs):
         ctx.seen(("snell", o["id"], o["pol"], o["te"], o["bphi"], o["ct"], o["cp"]))
         rep = {"crystal": o["id"], "polarization": o["pol"], "crystal_theta": fl(o["ct"]), "crystal_phi": fl(o["cp"]),
                "wavelength_m": fl(o["lambda"]), "beam_phi": fl(o["bphi"]), "theta_external_deg": fl(o["te_deg"]),
-               "call": "Beam::new(pol, phi, 0.1 rad, lambda, 100 um).set_theta_external(theta_e, &setup); theta_external(&setup)"}
+               "call": "Beam::new(pol, phi, 0.1 rad, lambda, 100 um).set_theta_external(theta_e, &setup); theta_external(&setup)",
+               "replay": {"kind": "snell", "crystal": o["id"], "pol": o["pol"], "ct": o["ct"], "cp": o["cp"], "lambda": o["lambda"],
+                          "bphi": o["bphi"], "te": o["te"]}}
         if "panic" in o:
             ctx.violation("S5", f"{o['id']}: set_theta_external({fl(o['te_deg'])} deg) panicked: {o['panic'][:160]}", {"kind": "snell_panic"}, rep)
             continue
         te, back, ti, n = fl(o["te"]), fl(o["back"]), fl(o["ti"]), fl(o["n"])
         rep.update({"read_back_deg": back / DEG, "theta_internal_rad": ti, "index_at_internal": n})
+        # is the refracted beam next to an optic axis?  (there index_along returns 0 for a fraction of the directions — C02's
+        # finding — and the simplex is misled): relative root separation sqrt(D)/(a_max - a_min) of Fresnel's quadratic
+        near_axis = False
+        try:
+            from props.c02 import Exact, rot
+            n3 = [frac_of_hex(x) for x in o["ind"]]
+            sdir = rot(frac_of_hex(o["ct"]), frac_of_hex(o["cp"]), [frac_of_hex(x) for x in o["dir"]])
+            ex = Exact(n3, [Fraction(x) for x in sdir])
+            da = float(max(ex.a) - min(ex.a))
+            rep["relative_root_separation"] = math.sqrt(ex.D) / da if da > 0 else 0.0
+            near_axis = da > 0 and math.sqrt(ex.D) / da < 1e-5
+        except Exception:
+            pass
+        sfx = "_near_optic_axis" if near_axis else ""
+        note = " — the refracted beam runs within ~3e-3 rad of an optic axis, where index_along returns 0 for part of the directions" if near_axis else ""
         if not all(math.isfinite(x) for x in (back, ti, n)):
-            ctx.violation("S5", f"{o['id']}: non-finite Snell conversion (read back {back}, internal {ti}, index {n})", {"kind": "snell_not_finite"}, rep)
+            ctx.violation("S5", f"{o['id']}: non-finite Snell conversion (read back {back}, internal {ti}, index {n}){note}", {"kind": "snell_not_finite" + sfx}, rep)
             continue
         err_deg = abs(back - te) / DEG
         if err_deg > 1e-5:
-            ctx.violation("S5", f"{o['id']} ({o['pol']}): external angle {fl(o['te_deg'])!r} deg reads back as {back / DEG!r} deg (off by {err_deg:.3e} deg > 1e-5)",
-                          {"kind": "snell_roundtrip"}, rep)
+            ctx.violation("S5", f"{o['id']} ({o['pol']}): external angle {fl(o['te_deg'])!r} deg reads back as {back / DEG!r} deg (off by {err_deg:.3e} deg > 1e-5){note}",
+                          {"kind": "snell_roundtrip" + sfx}, rep)
+            if near_axis:
+                ctx.count("snell_fail_near_axis")
         res = abs(float(hp.sin(frac_of_hex(o["te"])) - hp.D(frac_of_hex(o["n"])) * hp.sin(frac_of_hex(o["ti"]))))
         rep["residual"] = res
         if res > 3e-8:
-            ctx.violation("S5", f"{o['id']} ({o['pol']}): stored internal angle violates sin(theta_e) = n sin(theta_i): residual {res:.3e} at theta_e = {fl(o['te_deg'])!r} deg",
-                          {"kind": "snell_residual"}, rep)
+            ctx.violation("S5", f"{o['id']} ({o['pol']}): stored internal angle violates sin(theta_e) = n sin(theta_i): residual {res:.3e} at theta_e = {fl(o['te_deg'])!r} deg{note}",
+                          {"kind": "snell_residual" + sfx}, rep)
         if abs(ti) > abs(te) + 1e-9 or not (0 <= ti <= math.pi / 2):
             ctx.violation("S5", f"{o['id']} ({o['pol']}): internal angle {ti!r} is larger than the external angle {te!r} (or outside [0, pi/2])",
-                          {"kind": "snell_internal_larger"}, rep)
+                          {"kind": "snell_internal_larger" + sfx}, rep)
         out.append(o)
     return out
 
@@ -359,6 +381,15 @@ def correspondence(ctx, steps, snells, units, waists, obs, budget):
         add("m", f"Rabs (normalize_angle_gen {coq_q(x)} - {coq_hex(o['u'])}) <= {ctol(float(x))} /\\ "
                  f"Rabs (normalize_angle_signed_gen {coq_q(x)} - {coq_hex(o['s'])}) <= {ctol(float(x))}", f"case_norm ({q[0]})%Z {hi}", ("norm", o, None))
     res = run_interval_cases(ctx, "C13", IMPORTS, goals)
+    failed = [g for g in goals if not res.get(g[0])]
+    if failed:
+        # a shard that was killed (memory pressure, time-out) reports all its goals as failed: try the failed goals once more,
+        # a few at a time, before calling them disagreements
+        ctx.log(f"   {len(failed)} goals not closed; retrying them once")
+        before = (ctx.cov["obligations"], ctx.cov["discharged"])
+        res2 = run_interval_cases(ctx, "C13r", IMPORTS, failed, shards=min(8, max(1, len(failed) // 4)), timeout=1500)
+        ctx.cov["obligations"], ctx.cov["discharged"] = before[0], before[1] + sum(1 for v in res2.values() if v)
+        res.update(res2)
     for cid, ok in res.items():
         if ok or cid not in meta:
             continue
@@ -369,13 +400,34 @@ def correspondence(ctx, steps, snells, units, waists, obs, budget):
         ctx.violation("S4", f"generated model and implementation disagree on a {what} step (case {cid})", {"kind": "model_mismatch", "what": what}, rep, found_input=False)
 
 
+def run_replay(ctx, binp):
+    """./check C13 --replay <file>: re-run exactly the recorded history / Snell input through the implementation and the oracle"""
+    rec = json.load(open(ctx.replay if os.path.isabs(ctx.replay) else os.path.join(VERIF, ctx.replay)))
+    rp = rec.get("detail", {}).get("replay")
+    if not rp:
+        ctx.note("replay file names no concrete input (broken proof obligation / correspondence case): running the full check instead")
+        return None
+    obs = run_harness(ctx, binp, ["c13", "replay", json.dumps(rp)])
+    check_hist(ctx, obs)
+    check_snell(ctx, obs)
+    ctx.cov["rule"] = "replay of one recorded input"
+    return finish(ctx)
+
+
 def run(ctx):
     binp = build_harness(ctx)
+    if getattr(ctx, "replay", None):
+        r = run_replay(ctx, binp)
+        if r is not None:
+            return r
     msgs, spans = regen(ctx, ["beam", "fresnel"])
     ctx.cov["translated_spans"] = {k: v for k, v in spans.items() if k.split("::")[0] in ("beam", "math", "utils", "crystal_setup")}
     for m in msgs:
         ctx.proof_failures.append(("Gen/Beam.v", "translator", m))
     proved = (not msgs) and prove(ctx, "C13", extra_targets=["Proofs/C13_case.vo"])
+    okf, _, _ = coq_build(ctx, ["Findings/C13_snell_near_axis.vo"])
+    if not okf:
+        ctx.note("Findings/C13_snell_near_axis.v no longer compiles")
     quick = ctx.tier == "quick"
     n_hist, n_snell, budget = (60, 3, 130) if quick else (400, 14, 420)
     obs = run_harness(ctx, binp, ["c13", ctx.seed, n_hist, n_snell])
@@ -409,7 +461,8 @@ def run(ctx):
     ctx.cov["rule"] = ("random setter histories (1..50 ops over set_phi / set_theta_internal / set_angles / set_theta_external / set_vacuum_wavelength / "
                        "set_frequency / set_polarization / with_polarization / set_waist / PumpBeam::from; angle arguments: uniform, +-400 deg, multiples "
                        "of pi and 2 pi +- 1e-9, 0, -0, +-1e-20, +-1e-300, denormal, +-1e6, +-1e15, +-1e300), every intermediate state checked; Snell: 11 crystals x 2 "
-                       "polarizations x {0, 1e-6, 13, 45, 79.999, 80 deg, uniform 0..80, log-uniform small} x random azimuth, crystal angles, in-window wavelength; "
+                       "polarizations x {0, 1e-6, 13, 45, 79.999, 80 deg, uniform 0..80, log-uniform small} x random azimuth, crystal angles, in-window wavelength, "
+                       "plus set-ups whose refracted beam runs along an optic axis (crystal tilt = internal angle +- {0, 1e-9 .. 1e-3}, azimuth pi); "
                        "unit conversions log-uniform; distinct = distinct (history id, step index, op, argument bits) / input bits")
     ctx.cov["clauses"] = {
         "direction = (sin th cos ph, sin th sin ph, cos th), unit, after any setter history": "proved (induction over all op lists, generated setters); binary64 measured 1e-15",
